@@ -31,6 +31,9 @@ pub(crate) struct ReqSocket {
   ingress_engine: AddressedIngressEngine,
   pending_pipe_senders: ParkingLotMutex<HashMap<usize, PipeMessageSender>>,
   state: ParkingLotMutex<ReqState>,
+  /// Serialises send() calls: the state check and the state update of one send() are separated
+  /// by awaits, so without this two racing sends both pass the check and both go out.
+  send_serial: tokio::sync::Mutex<()>,
   reply_available_notifier: Arc<Notify>,
   pipe_read_to_endpoint_uri: RwLock<HashMap<usize, String>>,
 }
@@ -44,6 +47,7 @@ impl ReqSocket {
       ingress_engine: AddressedIngressEngine::new(max_conn),
       pending_pipe_senders: ParkingLotMutex::new(HashMap::new()),
       state: ParkingLotMutex::new(ReqState::ReadyToSend),
+      send_serial: tokio::sync::Mutex::new(()),
       reply_available_notifier: Arc::new(Notify::new()),
       pipe_read_to_endpoint_uri: RwLock::new(HashMap::new()),
     }
@@ -118,6 +122,10 @@ impl ISocket for ReqSocket {
         "REQ send: Cleared MORE flag from user-provided message."
       );
     }
+
+    // One send() at a time from check to state update; a racing send() waits here and then
+    // sees ExpectingReply. (Dropping the future releases the lock, so cancellation is safe.)
+    let _send_serial_guard = self.send_serial.lock().await;
 
     // === LOCK SCOPE 1: Check State ===
     {
